@@ -160,17 +160,23 @@ theorem spec_eq_iff (a b : Spec3) : a = b ↔ (a.1 = b.1 ∧ a.2.1 = b.2.1 ∧ a
 open Model in
 theorem less_iff (w o : Weight) :
     w.less o = true ↔ (w.precedence < o.precedence ∨ (w.precedence = o.precedence ∧
-      (specLt w.specificity o.specificity = true ∨ w.specificity = o.specificity))) := by
-  simp [Weight.less, specificityLess_eq]
+      ((w.styleAttr = false ∧ o.styleAttr = true) ∨ (w.styleAttr = o.styleAttr ∧
+        (specLt w.specificity o.specificity = true ∨ w.specificity = o.specificity))))) := by
+  unfold Weight.less
+  by_cases hp : w.precedence = o.precedence
+  · cases hw : w.styleAttr <;> cases ho : o.styleAttr <;> simp [hp, specificityLess_eq]
+  · simp [hp]
 
 def wle (a b : Model.WValue) : Bool := a.weight.less b.weight
 
 theorem wle_totalPreorder : Scan.TotalPreorder wle := by
   constructor
   · intro a b
-    simp only [wle, less_iff, specLt_iff, spec_eq_iff]; omega
+    simp only [wle, less_iff, specLt_iff, spec_eq_iff]
+    cases a.weight.styleAttr <;> cases b.weight.styleAttr <;> simp <;> omega
   · intro a b c
-    simp only [wle, less_iff, specLt_iff, spec_eq_iff]; omega
+    simp only [wle, less_iff, specLt_iff, spec_eq_iff]
+    cases a.weight.styleAttr <;> cases b.weight.styleAttr <;> cases c.weight.styleAttr <;> simp <;> omega
 
 /-- the Go zero value of the map entry stands for "no entry" -/
 def toOpt (w : Model.WValue) : Option Model.WValue := if w.weight.isNone then none else some w
